@@ -11,33 +11,47 @@ def extract(p: dict) -> None:
     def pcs(l):
         return ",".join(f"{t}@{hx(d)}" for t, d in l) if l else "."
 
-    # a silent console, boot_timeout = 3 s: the first transport read carries the poll read
-    # time-out, the distance between two polls is the period
-    obs = bi.run_case(f"4096 100000 ~;0d;{hx(b'=> ')};3072 - . a:.").split()
-    reads = [t.split("/") for t in obs if t.startswith("r/")]
-    p["ubootPollRead"] = int(reads[0][2])
-    p["ubootPollSleep"] = int(reads[1][3]) - int(reads[0][4])
-    # black-list and boot command: boot Linux through U-Boot on a console that answers at once
-    ub = f"~;0d;{hx(b'=> ')};-"
-    lnx = f"~;{hx(b'login: ')};0;{hx(b'root')};~;L{hx(b'assword: ')};-;-"
-    seen = {}
-    orig = board.LinuxBootLogin._init_machine
-
-    def spy(self):
-        seen["bl"] = bytes(sorted(self.ch._write_blacklist))
-        return orig(self)
-
-    board.LinuxBootLogin._init_machine = spy
+    # Observed values; if the tree under test is so broken that an observation run does not get
+    # through, the last known values are kept (the correspondence check then shows the failing
+    # input instead of the harness refusing to start) and `boardExtractOk` says so.
+    ok = True
     try:
-        obs = bi.run_case(f"4096 100000 {ub} {lnx} {pcs([(0, b'=> ')])} "
-                          f"c:{pcs([(0, b'x' * 64 + b'login: ')])}").split()
-    finally:
-        board.LinuxBootLogin._init_machine = orig
-    assert obs[0] == "ok", obs
-    p["ubootBlacklist"] = seen["bl"]
-    writes = [bytes.fromhex(t.split("/")[2]) for t in obs if t.startswith("w/")]
-    assert writes[0].endswith(b"\r")
-    p["ubootBootCmd"] = writes[0][:-1]
+        # a silent console, boot_timeout = 3 s: the first transport read carries the poll read
+        # time-out, the distance between two polls is the period
+        obs = bi.run_case(f"4096 100000 ~;0d;{hx(b'=> ')};3072 - . a:.").split()
+        reads = [t.split("/") for t in obs if t.startswith("r/")]
+        p["ubootPollRead"] = int(reads[0][2])
+        p["ubootPollSleep"] = int(reads[1][3]) - int(reads[0][4])
+    except Exception:
+        ok = False
+        p["ubootPollRead"], p["ubootPollSleep"] = 512, 512
+    try:
+        # black-list and boot command: boot Linux through U-Boot on a console that answers at once
+        ub = f"~;0d;{hx(b'=> ')};-"
+        lnx = f"~;{hx(b'login: ')};0;{hx(b'root')};~;L{hx(b'assword: ')};-;-"
+        seen = {}
+        orig = board.LinuxBootLogin._init_machine
+
+        def spy(self):
+            seen["bl"] = bytes(sorted(self.ch._write_blacklist))
+            return orig(self)
+
+        board.LinuxBootLogin._init_machine = spy
+        try:
+            obs = bi.run_case(f"4096 100000 {ub} {lnx} {pcs([(0, b'=> ')])} "
+                              f"c:{pcs([(0, b'x' * 64 + b'login: ')])}").split()
+        finally:
+            board.LinuxBootLogin._init_machine = orig
+        writes = [bytes.fromhex(t.split("/")[2]) for t in obs if t.startswith("w/")]
+        assert obs[0] == "ok" and writes[0].endswith(b"\r")
+        p["ubootBlacklist"] = seen["bl"]
+        p["ubootBootCmd"] = writes[0][:-1]
+    except Exception:
+        ok = False
+        p["ubootBlacklist"] = bytes([0, 1, 2, 3, 4, 5, 6, 7, 8, 9, 11, 12, 14, 15, 16, 17, 18, 19, 20, 21, 22, 23, 24, 26,
+                                     27, 28, 127])
+        p["ubootBootCmd"] = b"boot"
+    p["boardExtractOk"] = ok
     # defaults of the classes
     p["ubootPromptDefault"] = board.UBootShell.prompt.encode() if isinstance(board.UBootShell.prompt, str) else bytes(board.UBootShell.prompt)
     p["loginPromptDefault"] = board.LinuxBootLogin.login_prompt.encode()
